@@ -23,6 +23,9 @@ def main():
         if f.endswith('.v'):
             targets.append('Refuted/' + f + 'o')
     targets = sorted(set(targets))
+    from harness import translate
+    for problem in translate.regenerate():   # coq/Generated/*.v from the current /repo source
+        print('translator: ' + problem)
     C.ensure_makefile()
     rc, out, secs = C.make(targets, timeout=3600)
     print(out[-3000:])
